@@ -3,6 +3,9 @@
  *   rb <flag> <capacity-request> <throttle 0|1> <pre>
  *   w <count0> <count1> ...            one writer thread per count (messages to write)
  *   r <quota0>:<idx0> <quota1>:<idx1>  one reader thread per entry (reads to perform, first 32-bit index)
+ *   v <id>:<code> ...                  message id carries the pointer value <code> instead of the address of
+ *                                      its own payload object: -2 NULL, -3 (void*)-1, -(10+n) (void*)n for
+ *                                      n = 1..255, -(1000+k) &blocks[k], -2000 the ring object itself; codes may repeat
  *   modes                              (alone) print the flag -> mode table of muggle_ring_buffer_get_mode
  *   sched <spec>                       (see vsched.h)
  * <pre> messages (ids 0..pre-1) are written by the main thread before the scheduled threads
@@ -30,7 +33,36 @@ static uint32_t ridx0[VS_MAXT];
 static muggle_ring_buffer_t rb;
 static payload_t pay[MAXMSG];
 static volatile int begun, delivered, consumed[VS_MAXT];
+static int valcode[MAXMSG];
 static int once_mode;
+
+/* the pointer value message id carries (messages are opaque void* for the ring) */
+static void *ptr_of(int id)
+{
+	int c = valcode[id];
+	if (c >= 0) return &pay[id];
+	if (c == -2) return NULL;
+	if (c == -3) return (void *)(~(uintptr_t)0);
+	if (c <= -11 && c >= -265) return (void *)(uintptr_t)(-c - 10);
+	if (c <= -1000 && c > -2000) return (void *)&rb.blocks[(-c - 1000) % rb.capacity];
+	if (c == -2000) return (void *)&rb;
+	return NULL;
+}
+/* canonical code of a pointer value received from the ring: payload object -> its id */
+static int code_of(void *d)
+{
+	if ((char *)d >= (char *)pay && (char *)d < (char *)(pay + MAXMSG) &&
+		((char *)d - (char *)pay) % sizeof(payload_t) == 0)
+		return (int)((payload_t *)d - pay);
+	if (d == NULL) return -2;
+	if (d == (void *)(~(uintptr_t)0)) return -3;
+	if ((uintptr_t)d >= 1 && (uintptr_t)d <= 255) return -10 - (int)(uintptr_t)d;
+	if (d == (void *)&rb) return -2000;
+	if ((char *)d >= (char *)rb.blocks && (char *)d < (char *)(rb.blocks + rb.capacity) &&
+		((char *)d - (char *)rb.blocks) % sizeof(muggle_ring_buffer_block_t) == 0)
+		return -1000 - (int)((muggle_ring_buffer_block_t *)d - rb.blocks);
+	return -1;
+}
 
 static int can_begin(void)
 {
@@ -51,9 +83,9 @@ static void writer_thread(void *arg)
 	for (int j = 0; j < wcnt[w]; j++) {
 		while (throttle && !can_begin()) vs_yield_point("thr");
 		int id = begun++;
-		pay[id].val = PAYF(id);
+		if (valcode[id] >= 0) pay[id].val = PAYF(id);
 		vs_note("put %d", id);
-		muggle_ring_buffer_write(&rb, &pay[id]);
+		muggle_ring_buffer_write(&rb, ptr_of(id));
 	}
 }
 
@@ -63,12 +95,9 @@ static void reader_thread(void *arg)
 	uint32_t pos = ridx0[r];
 	for (int k = 0; k < rquota[r]; k++) {
 		void *d = muggle_ring_buffer_read(&rb, pos++);
-		int id = -1;
-		if ((char *)d >= (char *)pay && (char *)d < (char *)(pay + MAXMSG) &&
-			((char *)d - (char *)pay) % sizeof(payload_t) == 0)
-			id = (int)((payload_t *)d - pay);
-		vs_note("got %d", id);
-		vs_note("pay %d", id >= 0 ? pay[id].val : -1);
+		int code = code_of(d);
+		vs_note("got %d", code);
+		vs_note("pay %d", code >= 0 ? pay[code].val : -1);
 		consumed[r]++;
 		delivered++;
 	}
@@ -77,6 +106,7 @@ static void reader_thread(void *arg)
 static void case_begin(void)
 {
 	have_rb = modes_only = 0; nw = nr = 0;
+	for (int i = 0; i < MAXMSG; i++) valcode[i] = i;
 	strcpy(sched, "rand 1 50 0 0");
 }
 
@@ -94,6 +124,14 @@ static void case_line(char *line)
 		char *p = line + 1; int used;
 		nw = 0;
 		while (nw < VS_MAXT && sscanf(p, "%d%n", &wcnt[nw], &used) == 1) { p += used; nw++; }
+		return;
+	}
+	if (strcmp(op, "v") == 0) {
+		char *p = line + 1; int used, id, code;
+		while (sscanf(p, "%d:%d%n", &id, &code, &used) == 2) {
+			if (id >= 0 && id < MAXMSG && code < 0) valcode[id] = code;
+			p += used;
+		}
 		return;
 	}
 	if (strcmp(op, "r") == 0) {
@@ -137,8 +175,8 @@ static void case_end(void)
 	/* pre-written messages: outside the scheduler the hooks are transparent */
 	for (int i = 0; i < pre; i++) {
 		int id = begun++;
-		pay[id].val = PAYF(id);
-		muggle_ring_buffer_write(&rb, &pay[id]);
+		if (valcode[id] >= 0) pay[id].val = PAYF(id);
+		muggle_ring_buffer_write(&rb, ptr_of(id));
 	}
 	vs_name(&rb.cursor, "cursor");
 	vs_name(&rb.write_spin, "wlock");
